@@ -39,6 +39,25 @@ struct Event {
     seq: u64,
     waker: Waker,
 }
+// a min-heap on (tick, seq): `seq` is unique, so the order is total and the choice of the next
+// event is the same as a linear search for the minimum (which was quadratic over a Pending-heavy
+// schedule on a long medium: 39 s for one run)
+impl PartialEq for Event {
+    fn eq(&self, o: &Self) -> bool {
+        (self.tick, self.seq) == (o.tick, o.seq)
+    }
+}
+impl Eq for Event {}
+impl PartialOrd for Event {
+    fn partial_cmp(&self, o: &Self) -> Option<std::cmp::Ordering> {
+        Some(self.cmp(o))
+    }
+}
+impl Ord for Event {
+    fn cmp(&self, o: &Self) -> std::cmp::Ordering {
+        (o.tick, o.seq).cmp(&(self.tick, self.seq))
+    }
+}
 
 #[derive(Default, Debug, Clone)]
 pub struct ExecStats {
@@ -55,7 +74,7 @@ pub struct ExecStats {
 pub struct Executor<'a> {
     pub tasks: Vec<TaskSlot<'a>>,
     pub lot: ParkLot,
-    events: Vec<Event>,
+    events: std::collections::BinaryHeap<Event>,
     now: u64,
     seq: u64,
     script: Vec<u8>,
@@ -67,7 +86,7 @@ pub struct Executor<'a> {
 
 impl<'a> Executor<'a> {
     pub fn new(lot: ParkLot, script: Vec<u8>, rng: Option<Rng>) -> Self {
-        Executor { tasks: vec![], lot, events: vec![], now: 0, seq: 0, script, idx: 0, rng, taken: vec![], stats: ExecStats::default() }
+        Executor { tasks: vec![], lot, events: std::collections::BinaryHeap::new(), now: 0, seq: 0, script, idx: 0, rng, taken: vec![], stats: ExecStats::default() }
     }
     pub fn spawn(&mut self, fut: Pin<Box<dyn Future<Output = ()> + 'a>>) -> usize {
         self.tasks.push(TaskSlot {
@@ -168,8 +187,7 @@ impl<'a> Executor<'a> {
                 self.poll_task(woken[c], false);
             } else if can_fire && c == woken.len() {
                 // earliest event by (tick, seq); the clock jumps to it
-                let (i, _) = self.events.iter().enumerate().min_by_key(|(_, e)| (e.tick, e.seq)).unwrap();
-                let e = self.events.swap_remove(i);
+                let e = self.events.pop().unwrap();
                 if e.tick > self.now {
                     self.stats.ticks += e.tick - self.now;
                     self.now = e.tick;
